@@ -331,7 +331,8 @@ func c14(c *Ctx) {
 			e := e
 			tcs = append(tcs, tc{fmt.Sprintf("ConstraintExpr(%q)", e), func(c *build.Context) { c.ConstraintExpr(e) }, true})
 		}
-		for _, e := range []string{"", " ", "\t", "a-b", "amd64,", "!!x", "a b,"} {
+		// an invalid option in every position among valid ones: first, in the middle, last
+		for _, e := range []string{"", " ", "\t", "a-b", "amd64,", "!!x", "a b,", "mac-os,amd64 linux,amd64", "linux,amd64 !!cgo darwin,amd64", "linux,amd64 darwin,a-b", "a-b c", "c a-b", "x !!y z", "!!y z", "amd64,, linux", "a, b", ",a b"} {
 			e := e
 			tcs = append(tcs, tc{fmt.Sprintf("ConstraintExpr(%q)", e), func(c *build.Context) { c.ConstraintExpr(e) }, false})
 		}
